@@ -76,11 +76,14 @@ def run_interp(exe, scripts_file, trace_file, timeout=1800, args=()):
     return rc, err
 
 
-def validate_trace(trace_module, trace_file, workdir, tag, heap="3g", timeout=1800, dfs=False):
+def validate_trace(trace_module, trace_file, workdir, tag, heap="3g", timeout=1800, dfs=False, trace_env=None):
     """Returns (accepted, first_unmatched_line (1-based) or None, n_events, tlc_result)."""
     wd = os.path.join(workdir, "val-" + tag)
     os.makedirs(wd, exist_ok=True)
-    res = tlc(trace_module, TRACE_CFG, wd, workers=1, env={"TRACE": trace_file}, heap=heap, timeout=timeout, dfs=dfs)
+    env = {"TRACE": trace_file}
+    if trace_env:
+        env.update(trace_env)
+    res = tlc(trace_module, TRACE_CFG, wd, workers=1, env=env, heap=heap, timeout=timeout, dfs=dfs)
     shutil.rmtree(wd, ignore_errors=True)
     m = re.search(r'<<"REJECTED", (\d+), (\d+)>>', res.out)
     if m:
@@ -118,7 +121,7 @@ class SeqOutcome:
 
 
 def replay_and_validate(exe, world_name, scripts_file, n_scripts, trace_module, workdir, tag, chunks=NCPU, interp_args=(), max_rej=3,
-                        reset_event='"e":"rs"'):
+                        reset_event='"e":"rs"', trace_env=None):
     """Run all scripts through one interpreter build and validate the recorded traces. Returns SeqOutcome."""
     out = SeqOutcome()
     k = max(1, min(chunks, (n_scripts + 199) // 200))
@@ -135,7 +138,7 @@ def replay_and_validate(exe, world_name, scripts_file, n_scripts, trace_module, 
         cur_trace = trace
         cur_part_lines = open(part).readlines()
         while True:
-            ok, line_no, nevents, res = validate_trace(trace_module, cur_trace, workdir, "%s-%02d" % (tag, i))
+            ok, line_no, nevents, res = validate_trace(trace_module, cur_trace, workdir, "%s-%02d" % (tag, i), trace_env=trace_env)
             if ok:
                 nev += nevents
                 break
@@ -187,7 +190,7 @@ def replay_and_validate(exe, world_name, scripts_file, n_scripts, trace_module, 
     return out
 
 
-def confirm_rejection(exe, rej, trace_module, workdir, interp_args=(), reset_event='"e":"rs"'):
+def confirm_rejection(exe, rej, trace_module, workdir, interp_args=(), reset_event='"e":"rs"', trace_env=None):
     """Re-run the single script alone; a rejection is reported only if it repeats."""
     if not rej.get("script"):
         return True
@@ -196,7 +199,7 @@ def confirm_rejection(exe, rej, trace_module, workdir, interp_args=(), reset_eve
         f.write(rej["script"] + "\n")
     trace = os.path.join(workdir, "single.ndjson")
     rc, err = run_interp(exe, sf, trace, args=interp_args)
-    ok, line_no, nevents, res = validate_trace(trace_module, trace, workdir, "single")
+    ok, line_no, nevents, res = validate_trace(trace_module, trace, workdir, "single", trace_env=trace_env)
     if not ok:
         rej["execution"] = [l.rstrip("\n") for l in open(trace) if l.strip()]
         rej["trace_line"] = line_no
